@@ -1033,9 +1033,9 @@ class Facts:
         text_refs = None
         was_inlined = {x for v in report.values() for x in v}
         for h in sorted(new - still):
-            # only a helper that WAS spliced somewhere may disappear; a new function nobody calls (a new API entry point, a
-            # function only reachable from outside the crate) stays and is judged as a function of its own
-            if h not in was_inlined or str(self.bodies[h].vis) == "pub":
+            # only a helper that WAS spliced somewhere may disappear (its code is judged where it was spliced in); a new
+            # function nobody in the crate calls (a new API entry point) stays and is judged as a function of its own
+            if h not in was_inlined:
                 continue
             if text_refs is None:
                 text_refs = "\n".join(json.dumps(b.j.get("blocks")) for i, b in self.bodies.items() if i not in new)
